@@ -254,6 +254,15 @@ func hbCase(r *rand.Rand, o *hout.Out) {
 			}
 		}
 	}()
+	// in some runs the peer asks for a retransmission in the middle: replayed messages are outbound traffic too
+	replayAt := time.Duration(0)
+	if r.Intn(3) == 0 {
+		replayAt = time.Duration(400+r.Intn(1800)) * time.Millisecond
+		go func() {
+			time.Sleep(time.Until(sr.t0.Add(replayAt)))
+			sr.h.ServeIncoming(frame("35=2\x0149=P\x0156=M\x0134=40\x0152=20240101-00:00:00.000\x017=1\x0116=0\x01"))
+		}()
+	}
 	for _, at := range sends {
 		time.Sleep(time.Until(sr.t0.Add(at)))
 		_ = sr.s.Send(fixgen.NewMarketDataRequest().SetMDReqID("x"))
@@ -268,7 +277,7 @@ func hbCase(r *rand.Rand, o *hout.Out) {
 	sr.h.Stop()
 	mu.Lock()
 	defer mu.Unlock()
-	desc := fmt.Sprintf("side=%d sends=%v", side, sends)
+	desc := fmt.Sprintf("side=%d sends=%v replay-at=%v", side, sends, replayAt)
 	first := map[string][]byte{}
 	for _, m := range outs {
 		if _, ok := first[field(m.raw, "34")]; !ok {
@@ -297,13 +306,19 @@ func hbCase(r *rand.Rand, o *hout.Out) {
 	o.Count("hb.scenarios")
 	o.Nontrivial("C08", desc)
 	var prev time.Duration = -1
+	maxSeq := 0
 	for _, m := range outs {
+		q, _ := strconv.Atoi(field(m.raw, "34"))
+		retransmission := q <= maxSeq // a replayed message: outbound traffic, but not an unsolicited heartbeat
+		if q > maxSeq {
+			maxSeq = q
+		}
 		if prev >= 0 {
 			gap := m.at - prev
 			if gap > N+P8+slack {
 				o.Fail("C08", "silent-too-long", fmt.Sprintf("%s: %v between outbound messages (limit N + N/10 + slack = %v); outs=%v", desc, gap, N+P8+slack, outs))
 			}
-			if m.mt == "0" && gap < N-5*time.Millisecond {
+			if m.mt == "0" && !retransmission && gap < N-5*time.Millisecond {
 				o.Fail("C08", "heartbeat-too-early", fmt.Sprintf("%s: unsolicited heartbeat %v after the previous outbound message; outs=%v", desc, gap, outs))
 			}
 		}
